@@ -16,9 +16,9 @@
 (*   compact  one simulated compaction (no effect in the model)                 *)
 (*   panic    the code under test panicked (no action: always a mismatch)       *)
 (* The first disagreement of a segment is printed as                            *)
-(*   <<"MISMATCH", line, <<class, expiryInvolved>>, expected>>                  *)
+(*   "MISMATCH|line|class|expiryInvolved|expected"   (one string, one line)     *)
 (* (class: reply | state | counts | early | panic | valtab) and the rest of     *)
-(* the segment is skipped; <<"OUTOFMODEL", line>> marks a segment the model     *)
+(* the segment is skipped; "OUTOFMODEL|line" marks a segment the model          *)
 (* cannot follow further (numerals beyond TLC's integers) - not a mismatch.     *)
 (* Accepted iff every line was consumed and no MISMATCH was printed.            *)
 EXTENDS ZKV, Json, IOUtils
@@ -105,7 +105,7 @@ IsObs == E.ev \in {"obs_k", "obs_h", "obs_l", "obs_s", "obs_z"}
 
 -----------------------------------------------------------------------------
 Mismatch(class, expinv, expected) ==
-  /\ PrintT(<<"MISMATCH", l, <<class, expinv>>, expected>>)
+  /\ PrintT("MISMATCH|" \o ToString(l) \o "|" \o class \o "|" \o ToString(expinv) \o "|" \o ToString(expected))
   /\ bad' = TRUE /\ UNCHANGED db
 Skip == UNCHANGED <<db, bad>>
 Gone == {<<E.gone[i][1], E.gone[i][2]>> : i \in 1..Len(E.gone)}
@@ -115,12 +115,12 @@ TNext ==
   /\ l' = l + 1
   /\ IF E.ev = "reset" THEN
         IF E.vals = ValTab THEN db' = InitDB /\ bad' = FALSE
-        ELSE db' = InitDB /\ bad' = TRUE /\ PrintT(<<"MISMATCH", l, <<"valtab", FALSE>>, ValTab>>)
+        ELSE db' = InitDB /\ bad' = TRUE /\ PrintT("MISMATCH|" \o ToString(l) \o "|valtab|FALSE|" \o ToString(ValTab))
      ELSE IF bad THEN Skip
      ELSE IF E.ev = "cmd" THEN
         LET c == Cmd(E.c, E.k, E.a)
             d == Do(db, c, E.t, E.now)
-        IN IF d.r = ROut THEN PrintT(<<"OUTOFMODEL", l>>) /\ bad' = TRUE /\ UNCHANGED db
+        IN IF d.r = ROut THEN PrintT("OUTOFMODEL|" \o ToString(l)) /\ bad' = TRUE /\ UNCHANGED db
            ELSE IF E.r = d.r THEN db' = d.db /\ UNCHANGED bad
            ELSE Mismatch("reply", ExpiryInvolved(db, c, E.t, E.now), d.r)
      ELSE IF IsObs THEN
